@@ -197,7 +197,7 @@ def mutate(rng, s):
 
 def requirement(rng, sysi, noise=0.0):
     if sysi in (0, 1, 4):
-        s = semver_req(rng, sysi)
+        s = collapsing(rng, sysi) if rng.random() < 0.08 else semver_req(rng, sysi)
     elif sysi == 2:
         s = go_req(rng)
     elif sysi == 5:
@@ -274,6 +274,50 @@ def shared_endpoint_pair(rng, sysi):
     return ta, tb, pts
 
 
+# ----------------------------------------------------------------------------- and-lists that collapse to one point
+
+def collapsing(rng, sysi):
+    """an and-list whose intersection is a single version: >a <=inc(a), >=a <=a, >a inc(a), in
+    either order; a may be written with fewer than three components (Default, Cargo, NPM)"""
+    n = rng.choice([3, 3, 3, 2, 1])
+    comps = [rng.choice([0, 1, 2, 3, 4, 9]) for _ in range(n)]
+    a = b".".join(b"%d" % c for c in comps)
+    nxt = list(comps)
+    nxt[-1] += 1
+    b = b".".join(b"%d" % c for c in (nxt + [0, 0])[:3])
+    full_a = b".".join(b"%d" % c for c in (comps + [0, 0])[:3])
+    form = rng.randrange(4)
+    if form == 0:
+        parts = [b">" + a, b"<=" + b]
+    elif form == 1:
+        parts = [b">=" + full_a, b"<=" + full_a]
+    elif form == 2:
+        parts = [b">" + a, (b"=" if sysi == 1 else rng.choice([b"", b"="])) + b]
+    else:
+        parts = [b">=" + full_a, b"<" + b] if n == 3 else [b">" + a, b"<=" + b]
+    if rng.random() < 0.5:
+        parts.reverse()
+    text = (b", " if sysi == 1 else b" ").join(parts)
+    if sysi in (0, 4) and rng.random() < 0.25:
+        other = comparator(rng, sysi)
+        text = text + b" || " + other if rng.random() < 0.5 else other + b" || " + text
+    return text
+
+
+LITERAL = re.compile(rb"v?\d[0-9A-Za-z.*+!-]*")
+
+
+def literals(texts):
+    """every version literal of the requirement texts, byte for byte as written"""
+    out = []
+    for t in texts:
+        for tok in LITERAL.findall(t):
+            tok = tok.rstrip(b"-.")
+            if tok and tok not in out:
+                out.append(tok)
+    return out
+
+
 # ----------------------------------------------------------------------------- probes
 
 VERS = re.compile(rb"v?(\d+)(?:\.(\d+|[xX*]))?(?:\.(\d+|[xX*]))?(?:\.(\d+))?(?:-([0-9A-Za-z.-]+))?")
@@ -316,6 +360,10 @@ def probes(rng, sysi, texts, n_random=4, cap=28):
             seen.add(v)
             out.append(v)
 
+    # the operands exactly as they are spelled in the requirement come first and are never cut
+    lits = literals(texts)[:8]
+    for t in lits:
+        add(t)
     bs = []
     for t in texts:
         bs += bounds_of(t)
@@ -356,8 +404,9 @@ def probes(rng, sysi, texts, n_random=4, cap=28):
         elif sysi == 3:
             add(fmt(sysi, nums) + b"-alpha")
             add(fmt(sysi, nums) + b"-SNAPSHOT")
-    rng.shuffle(out)
-    out = out[:cap - n_random]
+    rest = out[len(lits):]
+    rng.shuffle(rest)
+    out = out[:len(lits)] + rest[:max(cap - n_random - len(lits), 4)]
     for _ in range(n_random):
         nums = [num(rng) for _ in range(3)]
         pre = pick(rng, PRE) if (rng.random() < 0.3 and sysi not in (3, 6)) else None
